@@ -90,6 +90,12 @@ Agreement ==
         LET f == FileNamed(S, t.f) IN
         /\ ~Dropped(S, t, {})
         /\ FieldViol(ExpFields(S, f, t.it, t.it), BuiltFields(S, f, t.it, t.it, 8, {})) = {}
+AgreementD ==
+  LET S == SetOf(c) IN
+     \A t \in {t \in TypesOf(S) : t.n \in {"UserType", "DerivedUser", "DerivedNear", "FarUser", "Thing"}} :
+        LET f == FileNamed(S, t.f) IN
+        /\ ~Dropped(S, t, Dev)
+        /\ FieldViol(ExpFields(S, f, t.it, t.it), BuiltFields(S, f, t.it, t.it, 8, Dev)) = {}
 \* the declarative semantics distinguishes the homonyms (vacuity guard): near and far Thing have different members
 Distinguishes ==
   LET S == SetOf(c)
